@@ -71,7 +71,22 @@ fn setup_base<D: Distance>(
     Ok((db, raw, writers, model))
 }
 
-pub fn cancel_case<D: Distance>(spec: &HistorySpec, same_txn: bool, st: &mut CaseStats) -> Result<(), Fail> {
+pub fn cancel_case<D: Distance>(spec: &HistorySpec, same_txn: bool, deletions_only: bool, st: &mut CaseStats) -> Result<(), Fail> {
+    // deletions-only pending histories: nothing polls after the trees were rewritten, so a swallowed
+    // cancellation in the last loops is only visible there
+    let filtered;
+    let spec = if deletions_only {
+        let mut s = spec.clone();
+        s.rounds[1].ops.retain(|op| matches!(op, Op::Del { .. }));
+        if s.rounds[1].ops.is_empty() {
+            return Err(Fail::Discard("no deletion pending".into()));
+        }
+        st.bump("cancel_deletions_only");
+        filtered = s;
+        &filtered
+    } else {
+        spec
+    };
     let tenv = TestEnv::new(DEFAULT_MAP).map_err(Fail::Infra)?;
     let (db, raw, writers, mut model) = setup_base::<D>(&tenv, spec, st)?;
     let env = &tenv.env;
@@ -501,7 +516,7 @@ pub fn fault_case(c: &FaultCase, st: &mut CaseStats) -> Result<(), Fail> {
     match c.kind {
         0..=5 => {
             st.bump("kind_cancel");
-            with_metric!(c.spec.metric, D => cancel_case::<D>(&c.spec, c.same_txn, st))
+            with_metric!(c.spec.metric, D => cancel_case::<D>(&c.spec, c.same_txn, c.kind == 5, st))
         }
         6..=7 => {
             st.bump("kind_map_ladder");
